@@ -266,6 +266,39 @@ fn run(ctx: &mut Ctx) {
         b.truncate(l);
         check(ctx, &b, "valid packet repeated up to a length congruent to 80");
     });
+    // one word copied onto another (every ordered pair of the 20 words), on a valid base and on bases that break the counter
+    // ordering in each way: an unconstrained field that happens to EQUAL a constrained one must change nothing
+    ctx.cases("word-equalities", 20, |ctx, i, rng| {
+        let i = i as usize;
+        let mut bases: Vec<Vec<u8>> = Vec::new();
+        for (ds, dd, di) in [(1i64, 2i64, 3i64), (1, 4, 3), (4, 2, 3), (1, 2, 0), (0, 0, 0), (5, 5, 5), (-1, 2, 3)] {
+            let out = 1000 + rng.below(1000) as u32;
+            let mut t = Trg::simple(rng.next() as u32, out);
+            t.scaledown = (out as i64 + ds) as u32;
+            t.drift = (out as i64 + dd) as u32;
+            t.input = (out as i64 + di) as u32;
+            t.pulser = rng.next() as u32;
+            bases.push(t.encode());
+        }
+        for base in &bases {
+            for j in 0..20usize {
+                if j == i {
+                    continue;
+                }
+                let mut b = base.clone();
+                let w: [u8; 4] = b[4 * j..4 * j + 4].try_into().unwrap();
+                b[4 * i..4 * i + 4].copy_from_slice(&w);
+                check_light(ctx, &b, "one word copied onto another");
+                // and onto two others at once
+                let k = (i + 7) % 20;
+                if k != j {
+                    b[4 * k..4 * k + 4].copy_from_slice(&w);
+                    check_light(ctx, &b, "one word copied onto two others");
+                }
+                ctx.count("packets with one word copied onto another");
+            }
+        }
+    });
     // a valid packet followed (or preceded) by a word that is a checksum of it: CRC-32C plain / inverted, either byte
     // order, word sum, word xor, byte sum; also as a 2-byte trailer
     ctx.cases("checksum-trailers", 8, |ctx, i, rng| {
